@@ -1,4 +1,5 @@
 import CoolerModel.Props.C05Core
 import CoolerModel.Props.C05First
+import CoolerModel.Props.C05Hiclib
 /-! C05 — umbrella: `C05Core` (assignment, sanitising, sorted aggregation, tabix) and `C05First`
 (`aggregate_records(sort=False)` stores exactly the same cells as the sorted aggregation). -/
